@@ -429,6 +429,23 @@ func (s *LinearState) FindCachedRules(ctx *Context, event Map) (map[string]*Rule
 
 func (s *LinearState) Clear(ctx *Context) error {
 	Log(INFO, ctx, "LinearState.Clear", "name", s.Name)
+	if s.remHook != nil {
+		// As in IndexedState.Clear: everything is about to be
+		// removed, so run the remHook for every fact.
+		s.slock(ctx, true)
+		ids := make([]string, 0, len(s.Facts))
+		for id := range s.Facts {
+			ids = append(ids, id)
+		}
+		s.sunlock(ctx, true)
+		for _, id := range ids {
+			if err := s.remHook(ctx, s, id); err != nil {
+				Log(ERROR, ctx, "LinearState.Clear", "state", s.Name, "error", err,
+					"id", id, "when", "remHook")
+				return err
+			}
+		}
+	}
 	_, err := s.store.Clear(ctx, s.Name)
 	// Maybe protect the store (above), too.
 	s.slock(ctx, false)
